@@ -312,6 +312,16 @@ def harmonics_contract(ck: Check, n: int):
         if abs(ytt + c * yt + ypp / s2 + l2 * (l2 + 1) * y) > 1e-4 * (1 + l2 * (l2 + 1)) / s2:
             ck.mismatch("c13-harmonics", f"spherical_harmonic_real_k({k}) [degree {l2}, order {m2}]: spherical Laplacian + l(l+1) Y = "
                         f"{ytt + c * yt + ypp / s2 + l2 * (l2 + 1) * y:.3g} at (theta, phi)=({th}, {ph})", {"k": k, "theta": th, "phi": ph})
+        # the further hypotheses of p3d_volume_first_order: every mode that carries an amplitude (k >= 1) has degree >= 1, and the
+        # harmonics (hence their azimuthal derivative) are 2 pi-periodic in phi
+        ck.count("harmonic_degree_and_period")
+        if l2 < 1:
+            ck.mismatch("c13-harmonics", f"spherical_index_lm({k}) = ({l2}, {m2}): a mode with an amplitude has degree 0 (hypothesis hdeg of p3d_volume_first_order)", {"k": k})
+        yp0 = (g(th, h) - g(th, -h)) / (2 * h)
+        yp1 = (g(th, 2 * math.pi + h) - g(th, 2 * math.pi - h)) / (2 * h)
+        if abs(g(th, ph + 2 * math.pi) - y) > 1e-9 * (1 + abs(y)) or abs(yp1 - yp0) > 1e-6 * (1 + abs(yp0)):
+            ck.mismatch("c13-harmonics", f"spherical_harmonic_real_k({k}) is not 2 pi-periodic in the azimuth at theta={th} (hypothesis of p3d_volume_first_order)",
+                        {"k": k, "theta": th, "phi": ph})
 
 
 def replay(case: dict):
@@ -326,7 +336,7 @@ def run(ck: Check):
                "directions and centres; code vs generated formulas at Float; numeric truth (exact 2-D curvature, finite-difference mean curvature, spectral quadrature); "
                "first-order agreement tested by 4x amplitude scaling (discrepancy must drop by > 6.6x); non-trivial = distinct (class, radius, amplitudes, direction)")
     ck.assumptions = ["spherical harmonics are scipy's sph_harm_y through the library's wrappers (values supplied to the model as a table)",
-                      "the geometric meaning of the linearised specification is PROVED in 2-D and for axisymmetric droplets (axi_curvature_first_order, from the eigen-equation of the harmonics, monitored on the real wrappers); for general 3-D shapes it is validated numerically, not proved",
+                      "the geometric meaning of the linearised specification is PROVED in 2-D and for axisymmetric droplets (axi_curvature_first_order, from the eigen-equation of the harmonics, monitored on the real wrappers); for general 3-D shapes the curvature clause (p3d_curvature_first_order) and the vanishing first-order volume term (p3d_volume_first_order) are proved from the same eigen-equation plus 2 pi-periodicity in the azimuth and degree >= 1 of the modes k >= 1 (all monitored); the exact 3-D volume is validated numerically, not proved",
                       "finite-difference mean curvature: step 2e-3 R, noise allowance 3e-6/R"]
     ck.extra_cov["gen_keys"] = ["p2d_distance", "p2d_curvature", "p2d_volume", "p2d_set_volume", "p2d_surface_approx", "p3d_distance", "p3d_curvature",
                                 "axi_distance", "axi_curvature", "p3d_volume_approx", "axi_volume_approx"]
